@@ -482,8 +482,11 @@ class OpGen:
                 # query is answered, otherwise it ends in NOT_SUPPORTED)
                 a['FilterQueryLanguage'] = r.choice(['WQL', 'DMTF:CQL',
                                                      'DMTF:FQL', 'DMTF:FQL'])
-                a['FilterQuery'] = 'select * from %s' % r.choice(
-                    ['C0', self.m['classes'][0]['name']])
+                # (the mock names the result class only behind an upper
+                # case FROM)
+                a['FilterQuery'] = r.choice(
+                    ['select * from %s', 'SELECT * FROM %s']) % r.choice(
+                        ['C0', self.m['classes'][0]['name']])
                 ns = self.ns()
                 if ns is not None:
                     a['namespace'] = ns
